@@ -74,6 +74,8 @@ let dispatch op =
   | "rankold" -> let g = rd_graph () in let d = rd_zlist () in out_res out_z (rank_opt_uncorrected kfuel fuel g d)
   | "gon" -> let g = rd_graph () in let mx = rd_nat () in let fs = rd_bool () in
       out_res (fun (k, l) -> out_z k; out_int (List.length l); List.iter (fun s -> List.iter out_z s) l) (compute_gonality fuel g mx fs)
+  | "persink" -> let g = rd_graph () in let q = rd_nat () in let mx = rd_nat () in
+      out_res (fun (k, l) -> out_nat k; out_int (List.length l); List.iter (fun s -> List.iter out_z s) l) (per_sink fuel g q mx)
   | "game" -> let g = rd_graph () in let d = rd_zlist () in let v = rd_nat () in out_res out_bool (play_game fuel g d v)
   | "strat" -> let g = rd_graph () in let d = rd_zlist () in
       out_res (fun (b, l) -> out_bool b; out_natlist l) (test_strategy fuel g d)
